@@ -151,16 +151,18 @@ def main():
                 if ('kani:' + n, kind) not in obl:
                     obl.append(('kani:' + n, kind))
             continue
-        hits = sorted(n for n in tab if fnmatch.fnmatchcase(n, pat) and not n.startswith('kani:'))
+        hits = sorted(n for n in tab if fnmatch.fnmatchcase(n, pat) and not n.startswith('kani:') and (kind == 'nec' or '__nec_' not in n))
         if not hits:
             return undecided('obligation-lost:' + pat)
         for n in hits:
             if (n, kind) not in obl:
                 obl.append((n, kind))
-    failed = [(n, k) for n, k in obl if not tab[n]['success']]
+    def ok(n, k):
+        return (not tab[n]['success']) if k == 'nec' else tab[n]['success']
+    failed = [(n, k) for n, k in obl if not ok(n, k)]
     rlimit_hit = [d for d in run['diagnostics'] if 'rlimit' in d['message'] or 'Resource limit' in d['message']]
     discharged = len(obl) - len(failed)
-    per = [{'obligation': n, 'kind': k, 'backend': ('kani/cbmc complete' if k == 'kani' else 'kani/cbmc ' + k[5:] if k.startswith('kani') else 'verus/z3'), 'discharged': tab[n]['success'],
+    per = [{'obligation': n, 'kind': k, 'backend': ('kani/cbmc complete' if k == 'kani' else 'kani/cbmc ' + k[5:] if k.startswith('kani') else 'verus/z3'), 'discharged': ok(n, k), 'expect': ('fail' if k == 'nec' else 'pass'),
             'time_ms': tab[n]['time_us'] // 1000, 'rlimit': tab[n]['rlimit']} for n, k in obl]
     cov = {
         'obligations': len(obl), 'discharged': discharged,
